@@ -273,13 +273,15 @@ class GetMPTwo(Contract):
 
 
 CONTRACTS = [NSContract, GetNSOne, GetNSRoundTrip, MPContract, GetMPRoundTrip, GetMPTwo]
+from contracts._parts import bounded  # noqa: E402
+BOUNDED = bounded("C37")  # wire primitives on boundary values and twisted.conch.ssh.keys.Key round trips (bounded)
 LEMMAS = [BeRoundTrip, BeTopByte, LeadingZero]
 SPECFNS = [be, be_val]
 NOTES = dict(
     explanation="NS/getNS/MP/getMP proved inverse for all byte strings < 2^32 bytes and all integers >= 0 "
                 "(count 1 and 2); big-endian digit lemmas proved by induction.",
-    not_covered=["Key.toString/fromString for every key type and format (behaviour of the cryptography and bcrypt "
-                 "libraries; no contract within reach)", "getNS/getMP for count > 2 (the loop is unrolled for the "
+    not_covered=["Key.toString/fromString as deductive contracts (behaviour of the cryptography and bcrypt "
+                 "libraries; no contract within reach): bounded tier only", "getNS/getMP for count > 2 (the loop is unrolled for the "
                  "concrete counts 1 and 2)", "payloads of 2^32 bytes or more (struct.error)"],
 )
 MANIFEST = dict(
@@ -288,9 +290,13 @@ MANIFEST = dict(
          "executed from source and proved to round-trip (getNS(NS(t)++r) == (t, r), getMP(MP(n)++r) == (n, r), also "
          "two values back to back) for every byte string and every non-negative integer, with MP shown to emit the "
          "minimal non-negative two's-complement form. Induction over digits is done by three lemmas whose steps are "
-         "SMT VCs. The key-serialization half of the property is not claimed (library behaviour).",
+         "SMT VCs. The key-serialization half of the property is exercised in the bounded tier only "
+         "(contracts/parts/C37_bounded.py): deterministic RSA / DSA / ECDSA P-256/384/521 / Ed25519 keys with boundary "
+         "numbers through blob, public line, privateBlob, openssh-key-v1, PEM, agent v3 and lsh formats, with and without "
+         "passphrases, against independently written RFC 4253 / 5656 / 8709 encoders and readers, fingerprints and "
+         "sign/verify agreement.",
     note="Trusted: pyvc, SMT solvers, struct.pack/unpack big-endian axiom, int_to_bytes/int.from_bytes modelled by the "
          "spec functions be/be_val (both compared with CPython on every run), object-level induction principle. "
-         "Keys (Key.toString/fromString) are NOT covered.",
-    technique="contract-based deductive verification: AST symbolic execution to SMT VCs with recursive spec functions and inductive lemmas",
+         "Keys (Key.toString/fromString): bounded only, never counted as proved.",
+    technique="contract-based deductive verification: AST symbolic execution to SMT VCs with recursive spec functions and inductive lemmas (wire primitives) + bounded exhaustive key round trips",
 )
